@@ -2,15 +2,22 @@
 import fcntl, json, os, subprocess, sys, time, hashlib, random
 
 VERIF = os.path.dirname(os.path.dirname(os.path.abspath(__file__)))
-REPO = "/repo"
+REPO = os.environ.get("TSS_REPO", "/repo")   # checks registered in MANIFEST always use /repo
 CACHE = os.path.join(VERIF, ".cache")
 COQ = os.path.join(VERIF, "coq")
 RUNNER_DIR = os.path.join(VERIF, "runner")
 RUNNER = os.path.join(RUNNER_DIR, "runner")
-HARNESS_DIR = os.path.join(VERIF, "harness")
-TARGET = os.path.join(CACHE, "harness-target")
-EVIDENCE = os.path.join(VERIF, "evidence")
-REPLAYS = os.path.join(VERIF, "replays")
+HARNESS_SRC = os.path.join(VERIF, "harness")
+if REPO == "/repo":
+    HARNESS_DIR = HARNESS_SRC
+    TARGET = os.path.join(CACHE, "harness-target")
+else:
+    # scratch copy of the repository (seeded-defect runs): private harness copy and target dir
+    _h = hashlib.sha1(REPO.encode()).hexdigest()[:10]
+    HARNESS_DIR = os.path.join(CACHE, "h-" + _h)
+    TARGET = os.path.join(REPO, "target-harness")
+EVIDENCE = os.environ.get("TSS_EVIDENCE", os.path.join(VERIF, "evidence"))
+REPLAYS = os.environ.get("TSS_REPLAYS", os.path.join(VERIF, "replays"))
 NCPU = os.cpu_count() or 4
 
 os.makedirs(CACHE, exist_ok=True)
